@@ -266,13 +266,208 @@ var c10Acquire = map[string]string{
 }
 var c10Release = map[string]string{
 	"(*net.UDPConn).Close": "udp socket",
+	"(*net.conn).Close":    "udp socket", // Close is promoted from the embedded net.conn
 	"(*github.com/usnistgov/dastard/ringbuffer.RingBuffer).Close":   "ring buffer",
 	"(*github.com/usnistgov/dastard/lancero.Lancero).StopAdapter":   "lancero adapter",
 	"(*github.com/usnistgov/dastard/lancero.Lancero).StopCollector": "lancero collector",
 }
 
+// c10ResKind classifies a call instruction as acquiring (+1) or releasing (-1) a resource kind.
+func c10ResKind(in ssa.Instruction) (kind string, dir int) {
+	cc := CallOf(in)
+	if cc == nil {
+		return "", 0
+	}
+	name := CalleeName(cc)
+	if k, ok := c10Acquire[name]; ok {
+		return k, +1
+	}
+	if k, ok := c10Release[name]; ok {
+		return k, -1
+	}
+	if cc.IsInvoke() && strings.HasSuffix(cc.Value.Type().String(), "lancero.Lanceroer") {
+		switch cc.Method.Name() {
+		case "StartAdapter":
+			return "lancero adapter", +1
+		case "StartCollector":
+			return "lancero collector", +1
+		case "StopAdapter":
+			return "lancero adapter", -1
+		case "StopCollector":
+			return "lancero collector", -1
+		}
+	}
+	return "", 0
+}
+
+// unbalancedAcquires: acquire sites in fn from which a return of fn is reachable without the
+// matching release (deferred releases count), not counting the branch taken when the
+// acquisition itself reported an error.
+func unbalancedAcquires(fn *ssa.Function) map[string]ssa.Instruction {
+	out := map[string]ssa.Instruction{}
+	Instrs(fn, func(in ssa.Instruction) {
+		kind, dir := c10ResKind(in)
+		if dir != +1 {
+			return
+		}
+		if _, isDefer := in.(*ssa.Defer); isDefer {
+			return
+		}
+		// blocks entered only when the acquire's own error result is non-nil
+		failed := map[*ssa.BasicBlock]bool{}
+		if v, ok := in.(ssa.Value); ok {
+			var errVals []ssa.Value
+			if _, isTuple := v.Type().(*types.Tuple); isTuple {
+				for _, ref := range *v.Referrers() {
+					if ex, ok := ref.(*ssa.Extract); ok && isErrorType(ex.Type()) {
+						errVals = append(errVals, ex)
+					}
+				}
+			} else if isErrorType(v.Type()) {
+				errVals = append(errVals, v)
+			}
+			for _, ev := range errVals {
+				for _, ref := range *ev.Referrers() {
+					bo, ok := ref.(*ssa.BinOp)
+					if !ok || bo.Op != token.NEQ {
+						continue
+					}
+					for _, r2 := range *bo.Referrers() {
+						if iff, ok := r2.(*ssa.If); ok {
+							tb := iff.Block().Succs[0]
+							for _, b := range fn.Blocks {
+								if tb.Dominates(b) {
+									failed[b] = true
+								}
+							}
+						}
+					}
+				}
+			}
+		}
+		esc := ReachAvoiding(fn, in, func(x ssa.Instruction) bool {
+			if failed[x.Block()] {
+				return true
+			}
+			k, d := c10ResKind(x)
+			return d == -1 && k == kind
+		}, isReturn)
+		if len(esc) > 0 {
+			out[kind] = in
+		}
+	})
+	return out
+}
+
 func (c *c10ctx) ruleR5() {
-	// built in a later step (see DESIGN.md section 6); the vocabulary above is kept here
-	_ = c10Acquire
-	_ = c10Release
+	p, r := c.p, c.r
+	r.MinInstances["C10.R5"] = 4
+	// module functions reachable from fn through calls, go statements and defers
+	reachMemo := map[*ssa.Function]map[*ssa.Function]bool{}
+	var reach func(fn *ssa.Function) map[*ssa.Function]bool
+	reach = func(fn *ssa.Function) map[*ssa.Function]bool {
+		if m, ok := reachMemo[fn]; ok {
+			return m
+		}
+		m := map[*ssa.Function]bool{}
+		reachMemo[fn] = m
+		var walk func(f *ssa.Function, d int)
+		walk = func(f *ssa.Function, d int) {
+			f = Unwrap(f)
+			if f == nil || m[f] || f.Blocks == nil || d > 8 {
+				return
+			}
+			pk := fnPkg(f)
+			if pk == nil || !strings.HasPrefix(pk.Path(), modPath) {
+				return
+			}
+			m[f] = true
+			Instrs(f, func(in ssa.Instruction) {
+				if CallOf(in) == nil {
+					return
+				}
+				for _, cal := range p.callees(in) {
+					walk(cal, d+1)
+				}
+			})
+			for _, an := range f.AnonFuncs {
+				walk(an, d+1)
+			}
+		}
+		walk(fn, 0)
+		return m
+	}
+	releases := func(fn *ssa.Function, kind string) bool {
+		found := false
+		for f := range reach(fn) {
+			Instrs(f, func(in ssa.Instruction) {
+				if k, d := c10ResKind(in); d == -1 && k == kind {
+					found = true
+				}
+			})
+		}
+		return found
+	}
+	recvOf := func(f *ssa.Function) string {
+		if f.Signature.Recv() == nil {
+			return ""
+		}
+		return typeName(f.Signature.Recv().Type())
+	}
+	for _, inv := range c.starterInvokes() {
+		step := CallOf(inv).Method.Name()
+		for _, impl := range c.impls(inv) {
+			D := recvOf(impl)
+			if D == "" || D == c.anyT.Obj().Name() {
+				continue
+			}
+			// kinds held when the step returns
+			held := map[string]string{}
+			for f := range reach(impl) {
+				for kind, at := range unbalancedAcquires(f) {
+					if _, ok := held[kind]; !ok {
+						held[kind] = p.InstrPos(at) + " in " + FuncName(f)
+					}
+				}
+			}
+			var kinds []string
+			for k := range held {
+				kinds = append(kinds, k)
+			}
+			sort.Strings(kinds)
+			for _, kind := range kinds {
+				r.Fn(FuncName(impl))
+				// failing exits of the start function after this step that pass no call able to release
+				// the resource through a method of the same implementation
+				esc := ReachAvoiding(c.starter, inv, func(x ssa.Instruction) bool {
+					if CallOf(x) == nil {
+						return false
+					}
+					for _, cal := range p.callees(x) {
+						for f := range reach(cal) {
+							if recvOf(f) == D && releases(f, kind) {
+								return true
+							}
+						}
+					}
+					return false
+				}, func(x ssa.Instruction) bool {
+					ret, ok := x.(*ssa.Return)
+					if !ok || len(ret.Results) == 0 {
+						return false
+					}
+					if cst, isC := ret.Results[len(ret.Results)-1].(*ssa.Const); isC && cst.Value == nil {
+						return false // success exit
+					}
+					return true
+				})
+				key := fmt.Sprintf("%s: %s taken in %s is released on every failing exit of %s after it", D, kind, step, FuncName(c.starter))
+				if len(esc) == 0 {
+					r.OK("C10.R5", key, p.InstrPos(inv), "acquired at "+held[kind]+"; every error return after the step passes a call that reaches this implementation's release")
+				} else {
+					r.Bad("C10.R5", key, p.InstrPos(esc[0]), "the "+kind+" acquired at "+held[kind]+" is still held when "+FuncName(c.starter)+" returns its error here: only the end of a run releases it, and a run never begins, so the device stays taken (address in use / adapter already started) and no later start can succeed")
+				}
+			}
+		}
+	}
 }
